@@ -171,7 +171,11 @@ def handle (op : String) (j : Json) : Except String Json :=
   | "c16.spec_fields" => do
       let s ← schemaOf (← getStr j "cls")
       let cols ← getArr strOf? j "cols"
-      .ok (okJson (Json.bool (hasDeclaredFields s cols)))
+      -- optional: the rows of the frame (no labels), judged by `noMissing` / `rowsHaveFields`
+      let rs ← rowsOf? (fieldD j "rows" (Json.arr #[]))
+      .ok (okJson (obj [("declared", Json.bool (hasDeclaredFields s cols)),
+                        ("no_missing", Json.bool (noMissing rs)),
+                        ("row_fields", Json.bool (rowsHaveFields s.declaredNames rs))]))
   | "c16.schema" => do
       let s ← schemaOf (← getStr j "cls")
       .ok (okJson (obj [("kind", Json.str (match s.kind with | .timed => "timed" | .hold => "hold")),
